@@ -205,3 +205,20 @@ func UniformSrcs(maxNodes int) []Src {
 	}
 	return out
 }
+
+// ReuseSrcs returns shapes in which one struct type is used by two sibling
+// fields (T{A W; B W} with W built from every forest of at most maxNodes nodes
+// and depth <= 2), so that equal group names recur under different parents at
+// every level — the layout that type reuse produces in real schemas.
+func ReuseSrcs(maxNodes int) []Src {
+	var out []Src
+	for i, f := range Enumerate(maxNodes, 2, false) {
+		sig := Sig(f)
+		off := SigOffset(sig, 8)
+		body := Source(f, EmitOpts{Offset: off})
+		body = strings.Replace(body, "type T struct", "type W struct", 1)
+		code := "\ntype T struct {\n\tA W\n\tB W\n}\n" + body
+		out = append(out, Src{Name: fmt.Sprintf("w%05d", i), Type: "T", Sig: fmt.Sprintf("reuse(%s)@%d", sig, off), Code: code})
+	}
+	return out
+}
